@@ -2,11 +2,18 @@
 # Re-run, in the mutant lab, the target check (quick tier; thorough where meta.json says so) of every
 # seeded change and of every own mutant, and write the outcome into seeded/*/meta.json ("latest_recheck")
 # and mutants/RESULTS_latest.txt. Exit 1 if any target check misses its change.
+# env: ONLY="C01 C03" restricts to seeds / mutants of these properties; SHARD=k/n takes every n-th item (k = 0..n-1),
+#      so that several labs (MLAB_DIR / MLAB_WT) can share the work.
 cd /verif || exit 2
 tools/mutant_lab.sh init || exit 2
 bad=0
+K=${SHARD%%/*}; NSH=${SHARD##*/}; [ -n "${SHARD:-}" ] || { K=0; NSH=1; }
+i=0
+want() { [ -z "${ONLY:-}" ] && return 0; for o in $ONLY; do [ "$o" = "$1" ] && return 0; done; return 1; }
 for d in seeded/*/; do
   id=$(basename "$d"); pid=${id%%-*}
+  want "$pid" || continue
+  i=$((i+1)); [ $((i % NSH)) = "$K" ] || continue
   tier=quick; grep -q '"needs_tier": "thorough"' "$d/meta.json" && tier=thorough
   res=$(VERIF_TIER=$tier tools/mutant_lab.sh run "$d/patch.diff" "$pid" 2>&1 | tail -1)
   echo "$id [$tier]: $res"
@@ -18,9 +25,11 @@ m=json.load(open(p)); m["latest_recheck"]={"tier":tier,"result":res}
 json.dump(m,open(p,"w"),indent=1)
 PY
 done
-: > mutants/RESULTS_latest.txt
+[ "$K" = 0 ] && : > mutants/RESULTS_latest.txt
 while read -r name ids; do
   first=$(echo $ids | cut -d' ' -f1)
+  want "$first" || continue
+  i=$((i+1)); [ $((i % NSH)) = "$K" ] || continue
   res=$(tools/mutant_lab.sh run mutants/$name.patch $first 2>&1 | tail -1)
   echo "$name: $res" | tee -a mutants/RESULTS_latest.txt
   case "$res" in DETECTED*) ;; *) bad=1 ;; esac
